@@ -65,6 +65,10 @@ def cases(shard, rnd):
                 yield {'t': 'buf', 'buf': m}
                 yield {'t': 'buf', 'buf': rnd.randbytes(7) + m}
                 yield {'t': 'buf', 'buf': (m + rnd.randbytes(7))[:len(m) + 3]}
+        for _ in range(max(40, shard['rand'] // 50)):
+            yield {'t': 'rxbuf', 'chunks': [
+                rnd.randbytes(rnd.choice([0, 1, 3, 6, 7, 8, 9, 15, 30]))
+                for _ in range(rnd.randint(4, 16))]}
         for _ in range(shard['rand']):
             h = bytearray(rnd.randbytes(7))
             k = rnd.random()
@@ -135,6 +139,53 @@ def run_case(case, rec):
     from pamqp import body, commands, frame, header, heartbeat
     rec.ev()
     t = case['t']
+    if t == 'rxbuf':
+        # ONE mutable receive buffer, peeked, changed in place (consumed from
+        # the front, appended to, overwritten, emptied) and peeked again: the
+        # answer is about the bytes the buffer holds NOW
+        buf = bytearray()
+        for step, chunk in enumerate(case['chunks']):
+            op = step % 4
+            if op == 0:
+                buf += chunk
+            elif op == 1:
+                del buf[:min(len(buf), 1 + chunk[0] % 11 if chunk else 1)]
+                buf += chunk
+            elif op == 2:
+                buf[:len(chunk)] = chunk
+            else:
+                del buf[:]
+                buf += chunk[:chunk[0] % 9 if chunk else 0]
+            o = call(frame.frame_parts, buf)
+            exp = struct.unpack('>BHI', bytes(buf[:7])) if len(buf) >= 7 \
+                else (0, 0, None)
+            if not o.ok or tuple(o.value) != exp:
+                rec.violation('peek-stale-after-buffer-changed-in-place',
+                              'frame_parts of a bytearray that was changed in '
+                              'place (step %d, %d bytes, starts %s) = %s; '
+                              'the buffer says %r'
+                              % (step, len(buf), common.hexs(buf, 12),
+                                 o.value if o.ok else o.describe(), exp),
+                              case)
+                return
+            # short-lived buffers in between: an identity-keyed memo must not
+            # survive the object it was about
+            for k in range(3):
+                tmp = bytes(chunk[k:k + 9]) + bytes([step & 255]) * k
+                o3 = call(frame.frame_parts, tmp)
+                e3 = struct.unpack('>BHI', tmp[:7]) if len(tmp) >= 7 \
+                    else (0, 0, None)
+                del tmp
+                if not o3.ok or tuple(o3.value) != e3:
+                    rec.violation('peek-mismatch:short-lived-buffer',
+                                  'frame_parts of a fresh bytes object = %s, '
+                                  'its first 7 bytes say %r'
+                                  % (o3.value if o3.ok else o3.describe(),
+                                     e3), case)
+                    return
+        rec.count('inplace_buffer_peeks_ok')
+        rec.nt(canon.digest_bytes(b''.join(case['chunks'])))
+        return
     if t == 'buf':
         buf = case['buf']
         n = len(buf)
